@@ -245,6 +245,9 @@ func c16Run(f []string) string {
 		}
 		return c16Repeat(func() string { return cmd.VerifBuildSpecialKeyJson(matches, m) })
 	}
+	if res, ok := c16RunR4b(f); ok {
+		return res
+	}
 	return c16RunR4(f)
 }
 
@@ -802,6 +805,7 @@ func c16Gen(r *Rand, tier string) []string {
 		}
 	}
 	out = append(out, c16GenR4(r, tier)...)
+	out = append(out, c16GenR4b(r, tier)...)
 	return out
 }
 
@@ -897,6 +901,7 @@ func c16Stats(cases []string) map[string]int {
 		}
 	}
 	c16StatsR4(cases, st)
+	c16StatsR4b(cases, st)
 	return st
 }
 
